@@ -158,7 +158,7 @@ def signature(recipe: dict, plan: dict | None, rec: dict, viol: dict) -> dict:
             src = recipe["inits"][e["share_with"]] if "share_with" in e else e
             kinds[f"{e['where']}:{e['name']}"] = src["kind"]   # initializer names are unique per graph only
         damaged = viol.get("raw_damaged", [])
-        via_tofile = cfg.get("backend", "fd") == "fd" and damaged and all(kinds.get(n) in ("np", "lazy", "packed") for n in damaged)
+        via_tofile = cfg.get("backend", "fd") == "fd" and damaged and all(kinds.get(n) in ("np", "np_view", "lazy", "packed") for n in damaged)
         # (torch / proto / bytesonly / ext tensors reach the file through Python-level write(): never silent)
         sig["writer"] = "numpy.tofile" if via_tofile else "python.write"
         sig["damage"] = "final-partial-stdio-block" if viol.get("raw_confined") and damaged else "other"
